@@ -23,6 +23,11 @@ type Execution struct {
 }
 
 func NewExecution(query promql.Query, pool *model.VectorPool, opts *query.Options) *Execution {
+	// The remote engine has applied the lookback delta already; its result is on the
+	// step grid and must be read back without looking back a second time.
+	remoteOpts := *opts
+	remoteOpts.LookbackDelta = 0
+	opts = &remoteOpts
 	return &Execution{
 		query:          query,
 		vectorSelector: scan.NewVectorSelector(pool, newStorageFromQuery(query), opts, 0, 0, 1),
